@@ -2,7 +2,7 @@
 # replay for failed obligation 'Circuit.prepare_multimode/prepare_multimode/no-exception' (property C05)
 # case: ''; solver: z3
 # verifier output (counter-model):
-#   choice_case = 1
+#   choice_case = 196
 import sys
 print('obligation Circuit.prepare_multimode/prepare_multimode/no-exception is not discharged on this tree; no failing concrete input was constructed')
 print('no-failing-input-found')
